@@ -52,6 +52,7 @@ def instances(tier):
     out.append(dict(id="retry-RK45CKSolver-2d", kind="retry", cls="RK45CKSolver", shape=[2], max_redo=2, budget=b))
     for fam in ("heun_euler", "dopri45"):
         out.append(dict(id="integrate-allreject-%s" % fam, kind="ode_allreject", family=fam, N=2, budget=b))
+        out.append(dict(id="integrate-rejected-then-accepted-%s" % fam, kind="ode_retry", family=fam, N=2, max_redo=2, budget=b))
     for order, nm in ((2, "HeunEulerSolver"), (5, "RK45CKSolver")):
         for dim in (1, 2):
             if dim == 2 and quick and order == 5:
@@ -142,6 +143,41 @@ def scenario(c, inst):
         c.check("c05.integrate_raises_FailedIntegration_caused_by_FailedToMeetTolerances",
                 st == "exc" and isinstance(r, FailedIntegration) and isinstance(r.__cause__, FailedToMeetTolerances), info=dict(st=st, r=repr(r)[:120]))
         c.check("c05.no_row_recorded_for_rejected_step", len(a.t) == 1 and len(a.y) == 1, info=dict(rows=len(a.t)))
+        return
+    if kind == "ode_retry":
+        # through OdeSystem.integrate: what is recorded for a step is exactly the accepted (last, smaller) attempt - never the rejected one
+        t0, tf, dt0 = c.real("t0"), c.real("tf"), c.real("dt0")
+        spans.input_assumptions(c, inst, t0, tf, dt0)
+        st, built = run(spans.build_system, c, inst, t0, tf, dt0)
+        if st != "ok":
+            c.check("c05.constructs", False, info=repr(built))
+            return
+        a, rhs, log = built
+        attempts = []
+        orig_step = a.integrator.step
+
+        def step(rhs_, t_, y_, consts, hh):
+            r = orig_step(rhs_, t_, y_, consts, hh)
+            attempts.append((t_, hh, a.integrator.dTime, a.integrator.dState))
+            return r
+        a.integrator.step = step
+        cb = spans.cap_callback(c, inst["N"] + 4, "adaptive")
+        st, r = run(a.integrate, callback=cb)
+        if st != "ok":
+            return
+        c.case()
+        spans.pairing_checks(c, "c05.ode", a, cb)
+        # every recorded row is the LAST attempt made from its start time
+        ok = []
+        for i in range(1, len(a.t)):
+            from_here = [x for x in attempts if bool(c.eq(x[0], a.t[i - 1]) if not c.symbolic else (x[0] - a.t[i - 1] == 0))]
+            if not from_here:
+                ok.append(False)
+                continue
+            last = from_here[-1]
+            ok.append(c.eq(a.t[i] - a.t[i - 1], last[2], 64))
+            ok.append(_eqv(c, a.y[i] - a.y[i - 1], last[3]))
+        c.check("c05.ode.recorded_row_is_the_last_attempt_from_its_start", c.all(ok), info=dict(rows=len(a.t), attempts=len(attempts)))
         return
     if kind in ("controller", "controller_implicit"):
         _controller(c, inst)
